@@ -23,6 +23,7 @@ Record case := mkCase {
   c_contains : N; c_contains_exact : N;       (* contains_type(s), contains_type(s, True) *)
   c_pairs : list (string * string);           (* string-level queries, may be short or unknown names *)
   c_pairs_sub : list (res bool);              (* ts.subsumes(x, y) *)
+  c_pairs_iio : list (res bool);              (* ts.is_instance_of(y, x): parent x / child y given by full, short, ambiguous or unknown name *)
   c_ident : bool                              (* every reachable Type object is the registered one (checked with `is`) *)
 }.
 
@@ -80,6 +81,7 @@ Definition check_queries (ts : tsys) (c : case) : bool :=
   && N.eqb (bits (map (fun s => contains_type ts s false) (c_lookups c))) (c_contains c)
   && N.eqb (bits (map (fun s => contains_type ts s true) (c_lookups c))) (c_contains_exact c)
   && list_eqb res_bool_eqb (map (fun p => ts_subsumes ts (fst p) (snd p)) (c_pairs c)) (c_pairs_sub c)
+  && list_eqb res_bool_eqb (map (fun p => is_instance_of ts (snd p) (fst p)) (c_pairs c)) (c_pairs_iio c)
   && c_ident c && forallb (fun t => forallb (feat_refs_okb ts) (t_own t ++ t_inh t)) ts.
 
 Definition check_case (c : case) : bool :=
